@@ -19,6 +19,7 @@ import (
 	"fmt"
 	"os"
 	"reflect"
+	"runtime"
 	"runtime/debug"
 	"sort"
 	"strconv"
@@ -53,6 +54,9 @@ func main() {
 	}
 	if only == "" || only == "heap" {
 		heapStream(ctx)
+		if replayLine == "" {
+			deadRegistrationOracle(ctx)
+		}
 	}
 	if only == "" || only == "isolation" {
 		c05oracle.Run(ctx)
@@ -583,6 +587,13 @@ func exec(line string, nat map[string]gojq.VerifNativeInfo) (answer string, writ
 		} else {
 			s.regs = append(s.regs, res)
 		}
+		if xs, isArr := res.([]any); op[0] == "g" && isArr && xs != nil && pathEndsInSlice(op[1][2:]) {
+			// a plain getpath that ends with a slice returned a second header onto a cell (an interior
+			// pointer): the model answers `?view` for the line, and the address-keyed bookkeeping below
+			// would take the header for a container of its own: stop here
+			out = append(out, "view")
+			break
+		}
 		if cyclic(s.roots()) {
 			// an aliased in-place write closed a cycle (the model answers `?` for such lines): stop here,
 			// natives such as deleteEmpty would not terminate on it
@@ -701,7 +712,7 @@ func heapStream(ctx *common.Ctx) {
 				op = "N"
 			}
 			line += " ; " + op
-			if a := execAnswer(line, nat); strings.HasSuffix(a, "halt") || strings.HasSuffix(a, "cyclic") {
+			if a := execAnswer(line, nat); strings.HasSuffix(a, "halt") || strings.HasSuffix(a, "cyclic") || strings.HasSuffix(a, "view") {
 				break
 			}
 		}
@@ -760,6 +771,11 @@ func heapStream(ctx *common.Ctx) {
 	}
 	orc.Samples = []string{lines[0], lines[len(lines)/2]}
 	ctx.RunStream(st, lines, impl)
+}
+
+func pathEndsInSlice(p string) bool {
+	i := strings.LastIndex(p, ",")
+	return len(p) > i+1 && p[i+1] == 'l'
 }
 
 func execAnswer(line string, nat map[string]gojq.VerifNativeInfo) string {
@@ -849,4 +865,62 @@ func cyclic(roots []any) bool {
 		}
 	}
 	return false
+}
+
+// ------------------------------------------------------------------------------------------------
+// dead registrations (bcc8a71): `|=` through slice paths under garbage collections
+// ------------------------------------------------------------------------------------------------
+
+// deadRegistrationOracle runs `|=` over many slice paths with a garbage collection forced inside the
+// update query and compares with the defining reduction over setpath/getpath, on the real library.
+// Before bcc8a71 updateArraySlice left the array that carried the new elements registered in the
+// allocator after dropping it; the collector hands such an address out again, to an array the update
+// query builds, which a later path then updates in place although it is referenced twice.
+func deadRegistrationOracle(ctx *common.Ctx) {
+	orc := ctx.NewOracle("slice-dead-registration", "model-free: (paths through slices, then paths into the values the update query stored) |= f, with runtime.GC() called inside f, equals reduce path(..) as $p (.; setpath($p; getpath($p) | f)) element by element; f stores an array that is referenced twice, so an in-place update licensed by a stale allocator entry shows; distinct = (path shape, n) pairs")
+	shapes := []struct{ name, first, second string }{
+		{"slice-index", ".[][1:][0]", ".[][1:][0][0][0]"},
+		{"slice-slice-index", ".[][1:][1:][0]", ".[][1:][1:][0][0][0]"},
+		{"slice-null-end", ".[][-2:][0]", ".[][-2:][0][0][0]"},
+	}
+	gc := gojq.WithFunction("gc", 0, 0, func(v any, _ []any) any { runtime.GC(); return v })
+	for _, sh := range shapes {
+		for _, n := range []int{ctx.N(400, 1500), ctx.N(8000, 40000)} {
+			f := "[., 1] as $y | [$y, $y]"
+			if n <= 1500 {
+				f = "gc | " + f // small n: force the collections; large n: the collections the run itself triggers
+			}
+			src := fmt.Sprintf(`[range($n) | [0, null, null, null]] | . as $in
+| ((%s, %s) |= (%s)) as $got
+| (reduce ($in | path(%s, %s)) as $p ($in; setpath($p; getpath($p) | %s))) as $want
+| [range($n) | select($got[.] != $want[.])] | {bad: length, first: (.[0] as $i | if $i == null then null else {i: $i, got: $got[$i], want: $want[$i]} end)}`,
+				sh.first, sh.second, f, sh.first, sh.second, f)
+			q, err := gojq.Parse(src)
+			if err != nil {
+				ctx.Errorf("slice-dead-registration: parse: %v", err)
+				return
+			}
+			code, err := gojq.Compile(q, gojq.WithVariables([]string{"$n"}), gc)
+			if err != nil {
+				ctx.Errorf("slice-dead-registration: compile: %v", err)
+				return
+			}
+			v, _ := code.Run(nil, n).Next()
+			orc.Cases++
+			orc.Distinct++
+			orc.Distribution[sh.name]++
+			m, ok := v.(map[string]any)
+			if !ok {
+				ctx.Errorf("slice-dead-registration: unexpected result %v", v)
+				continue
+			}
+			if common.Canon(m["bad"]) != "i0" {
+				cli := strings.ReplaceAll(strings.ReplaceAll(src, "gc | ", ""), "\n", " ")
+				ctx.Violate("modify-slice-dead-registration", fmt.Sprintf("|= through slice paths (%s, n=%d) differs from its defining reduction on %s elements: an array built by the update query was updated in place although referenced twice (stale allocator entry)", sh.name, n, common.Canon(m["bad"])),
+					map[string]any{"program": src, "n": n, "observed": common.Canon(m["first"]),
+						"how": "gojq -n -c --argjson n 20000 '" + cli + "'   (bad must be 0; depends on garbage collections, repeat or raise n)"})
+			}
+		}
+	}
+	orc.Samples = []string{shapes[0].first + ", " + shapes[0].second + " |= ([., 1] as $y | [$y, $y])"}
 }
